@@ -262,7 +262,7 @@ def record_call(call):
 
     c = call["cfg"]
     N, T, F = call["N"], call["T"], call["F"]
-    dtype = torch.float64 if call["dtype"] == "float64" else torch.float32
+    dtype = {"float64": torch.float64, "float16": torch.float16}.get(call["dtype"], torch.float32)
     warp = c["max_time_warp"] > 0 or c["max_freq_warp"] > 0
     feats = features(N, T, F, positive=warp, dtype=dtype)
     lens_list = call["lens"] if call["lens"] is not None else [T] * N
@@ -397,10 +397,20 @@ def calls(ctx):
             yield dict(cfg=c, N=N, T=T, F=F, lens=lens, source=s, seed=ctx.seed * 1000003 + j,
                        dtype="float64" if (j + j // 4) % 4 == 2 else "float32")
             j += 1
+    # half-precision features with sequences longer than half precision counts exactly (> 2048 frames; 4099 and 4095 are
+    # not representable): the limits are those of the TRUE lengths.  Masks only (no warp), draws at both ends of their
+    # ranges and seeded ones
+    for p4, mtm in ((1, 2000), (2, 3000), (4, 60)):
+        c = dict(max_time_warp=0.0, max_freq_warp=0.0, max_time_mask=mtm, max_freq_mask=1, max_time_mask_proportion=p4 / 4,
+                 num_time_mask=2, num_time_mask_proportion=1.0, num_freq_mask=1, interpolation_order=1)
+        for lens in ([4099], [4095, 4099], [2049, 4097]):
+            for s in ("hi", "lo", "mix", "seed"):
+                yield dict(cfg=c, N=len(lens), T=4100, F=2, lens=lens, source=s, seed=ctx.seed * 1000003 + j, dtype="float16")
+                j += 1
 
 
 KIND = {"TimeWarp": "time_warp_window", "FreqWarp": "freq_warp_window", "TimeMask": "time_mask_bounds",
-        "FreqMask": "freq_mask_bounds", "Grid": "linear_warp_grid", "Apply": "apply_zeroed_cells",
+        "FreqMask": "freq_mask_bounds", "Grid": "linear_warp_grid", "FineGrid": "linear_warp_grid", "Apply": "apply_zeroed_cells",
         "Hull": "warp_value_outside_input_range", "Shape": "output_shape", "Eval": "eval_not_identity"}
 
 
@@ -524,6 +534,35 @@ def qsnap2(x):
     return max(-BIG, min(BIG, math.floor(y)))
 
 
+def qsnapu(x, u):
+    """floor(u * x) after snapping u * x to the nearest integer when within 1e-3 of it (see qsnap2)"""
+    x = float(x)
+    if x != x or math.isinf(x):
+        return -BIG
+    y = u * x
+    if abs(y - round(y)) < 1e-3:
+        y = float(round(y))
+    return max(-BIG, min(BIG, math.floor(y)))
+
+
+FINE_UNITS = 256
+FINE_NOISE = 1e-3  # frames: a decrease of the observed read position of at most this much is float noise, not a decrease
+
+
+def fine_grid(pos):
+    """observed read positions -> floor(FINE_UNITS * position), after forgiving decreases of at most FINE_NOISE frames
+    (the later position is raised to the earlier one); any larger decrease survives and, floor being monotone, no
+    non-decreasing sequence can be rejected"""
+    out, prev = [], None
+    for x in pos:
+        x = float(x)
+        if prev is not None and x == x and prev - FINE_NOISE <= x < prev:
+            x = prev
+        out.append(qsnapu(x, FINE_UNITS))
+        prev = x
+    return out
+
+
 ENTRY_POINTS = ("SpecAugment.__call__", "SpecAugment.draw+apply", "functional.spec_augment", "functional.draw+apply")
 
 
@@ -554,6 +593,11 @@ def observe_call(call):
         return quiet(Fn.spec_augment, feats, c["max_time_warp"], c["max_freq_warp"], c["max_time_mask"],
                      c["max_freq_mask"], c["max_time_mask_proportion"], c["num_time_mask"],
                      c["num_time_mask_proportion"], c["num_freq_mask"], c["interpolation_order"], lens, True)
+    if ep == "functional.apply(explicit legal parameters)":
+        # centre / shift given explicitly (any value of the documented window is a possible draw)
+        e = torch.empty(0)
+        params = (torch.tensor(call["w0"]), torch.tensor(call["w"]), e, e, e.long(), e.long(), e.long(), e.long())
+        return quiet(Fn.spec_augment_apply_parameters, feats, params, c["interpolation_order"], lens)
     if ep != "functional.draw+apply":
         raise MachineryError("unknown entry point %r" % (ep,))
     params = quiet(Fn.spec_augment_draw_parameters, feats, c["max_time_warp"], c["max_freq_warp"],
@@ -583,6 +627,7 @@ def observed_traces(ctx, call, traces, meta):
         pos = (out[n, :L, 0].double() - 1).tolist()
         t = dict(cfg=spec_cfg(call["cfg"]), T=T, F=F, len=L, shape=[N, T, F], elem=n, tid=len(traces),
                  ev=[dict(a="Grid", axis="time", q=[qsnap2(x) for x in pos]),
+                     dict(a="FineGrid", axis="time", u=FINE_UNITS, q=fine_grid(pos)),
                      hull_event(call["cfg"]["interpolation_order"], feats[n], out[n]),
                      dict(a="Shape", shape=[int(x) for x in out.shape])],
                  raw=dict(time=None, freq=None))
@@ -596,7 +641,8 @@ def run_observed_grids(ctx):
     read; its half-frame quantisation over the valid frames goes through the same Grid action of the trace spec
     (non-decreasing, pinned within half a frame at both ends of the VALID frames).  float32 and float64 features."""
     traces, meta = [], []
-    for tw in ([0.5, 1.0, 2.5, 10.0] if ctx.quick else [0.5, 1.0, 1.5, 2.5, 4.0, 10.0]):
+    # warps below half a frame too (the draw then relies on warp_1d_grid clamping the source point into the valid frames)
+    for tw in ([0.1, 0.25, 0.4, 0.5, 1.0, 2.5, 10.0] if ctx.quick else [0.1, 0.25, 0.4, 0.5, 0.75, 1.0, 1.5, 2.5, 4.0, 10.0]):
         c = dict(max_time_warp=tw, max_freq_warp=0.0, max_time_mask=0, max_freq_mask=0, max_time_mask_proportion=0.0,
                  num_time_mask=0, num_time_mask_proportion=0.0, num_freq_mask=0, interpolation_order=1)
         for rep in range(6 if ctx.quick else 20):
@@ -611,6 +657,19 @@ def run_observed_grids(ctx):
                 call = dict(cfg=c, N=N, T=T, F=F, lens=lens_list, seed=seed, entry_point=ep,
                             dtype="float64" if rep % 3 == 2 else "float32")
                 observed_traces(ctx, call, traces, meta)
+    # every corner of the documented window, explicitly: centre in [W, L - W], shift in [-W, W], W = min(max warp, L / 2)
+    for tw in (0.1, 0.25, 0.4, 0.5, 1.0, 2.5):
+        c = dict(max_time_warp=tw, max_freq_warp=0.0, max_time_mask=0, max_freq_mask=0, max_time_mask_proportion=0.0,
+                 num_time_mask=0, num_time_mask_proportion=0.0, num_freq_mask=0, interpolation_order=1)
+        for L in ((3, 5, 9) if ctx.quick else (2, 3, 4, 5, 7, 9)):
+            W = min(tw, L / 2)
+            cens = sorted(set([W, L / 2, max(W, L - 1.0), max(W, L - 0.75), max(W, L - 0.5), L - W]))
+            pairs = [(ce, sh) for ce in cens for sh in (-W, -W / 2, 0.0, W / 2, W)]
+            for T in (L, L + 4):
+                call = dict(cfg=c, N=len(pairs), T=T, F=1, lens=[L] * len(pairs), seed=0,
+                            entry_point="functional.apply(explicit legal parameters)",
+                            w0=[p[0] for p in pairs], w=[p[1] for p in pairs], dtype="float32")
+                observed_traces(ctx, call, traces, meta)
     if not traces:
         return
     accepted, upto = validate(ctx, traces, "SpecAugmentTrace/observed_grid")
@@ -624,7 +683,7 @@ def run_observed_grids(ctx):
             continue
         k = upto.get(t["tid"], 0)
         ev = t["ev"][k] if k < len(t["ev"]) else dict(a="?")
-        if ev["a"] == "Grid":
+        if ev["a"] in ("Grid", "FineGrid"):
             _viol(ctx, dict(site=call["entry_point"], kind="observed_linear_warp_grid"),
                   "through %s the linear time warp read the valid frames (length %d of %d) at source positions %r: not non-decreasing or not "
                   "beginning/ending within half a frame of the first/last valid frame" % (call["entry_point"], t["len"], t["T"], [round(p, 3) for p in pos]),
